@@ -56,10 +56,11 @@ Record ifa := mkIfa {
   handles : nat;        (* handles the ethernet factory created for this interface *)
   ticker_live : bool;   (* helloTicker exists and was not stopped *)
   sender : bool;        (* hello sender routine alive (parked in its select) *)
-  receiver : bool       (* receiver routine alive (parked in RecvPacket) *)
+  receiver : bool;      (* receiver routine alive (parked in RecvPacket) *)
+  subscribed : bool     (* the interface is registered with the device server (srv.ds.Subscribe in newNetIfa) *)
 }.
 
-Definition new_ifa (p : bool) : ifa := mkIfa p false false false false NoHandle 0 false false false.
+Definition new_ifa (p : bool) : ifa := mkIfa p false false false false NoHandle 0 false false false true.
 
 (* Routines that can observe their exit condition leave:
    the hello sender leaves when done is closed, stopping its ticker;
@@ -70,7 +71,7 @@ Definition settle (f : ifa) : ifa :=
   mkIfa (passive f) (dev_known f) (oper_up f) (initialized f) (done_closed f) (eth f) (handles f)
         (if snd_leaves then false else ticker_live f)
         (if snd_leaves then false else sender f)
-        (if rcv_leaves then false else receiver f).
+        (if rcv_leaves then false else receiver f) (subscribed f).
 
 (* netIfa._start (the ethernet factory and the multicast join succeed) *)
 Definition start (f : ifa) : ifa :=
@@ -81,27 +82,27 @@ Definition start (f : ifa) : ifa :=
        A routine started while done is closed leaves at once (the sender stops the ticker). *)
     let alive := negb (done_closed f) in
     mkIfa (passive f) (dev_known f) (oper_up f) true (done_closed f) Open (S (handles f))
-          alive alive alive.
+          alive alive alive (subscribed f).
 
 (* netIfa._stop *)
 Definition stop (f : ifa) : outcome ifa :=
   bind (close_chan (done_closed f)) (fun dc =>
   bind (if is_nil (eth f) then Ok (eth f) else handle_close (eth f)) (fun h =>
   let f2 := settle (mkIfa (passive f) (dev_known f) (oper_up f) (initialized f) dc h (handles f)
-                          (ticker_live f) (sender f) (receiver f)) in
+                          (ticker_live f) (sender f) (receiver f) (subscribed f)) in
   (* wg.Wait() *)
   if sender f2 then Blocked WaitHelloSender
   else if receiver f2 then Blocked WaitReceiver
   else
     (* initialized = false; done = make(chan struct{}) *)
     Ok (mkIfa (passive f2) (dev_known f2) (oper_up f2) false false (eth f2) (handles f2)
-              (ticker_live f2) (sender f2) (receiver f2)))).
+              (ticker_live f2) (sender f2) (receiver f2) (subscribed f2)))).
 
 (* netIfa.DeviceUpdate with the new oper state (up or one of the six non-up states) *)
 Definition device_update (f : ifa) (up : bool) : outcome ifa :=
   let old_up := dev_known f && oper_up f in
   let f1 := mkIfa (passive f) true up (initialized f) (done_closed f) (eth f) (handles f)
-                  (ticker_live f) (sender f) (receiver f) in
+                  (ticker_live f) (sender f) (receiver f) (subscribed f) in
   if negb old_up && up then Ok (start f1)
   else if old_up && negb up then stop f1
   else Ok f1.
@@ -112,11 +113,13 @@ Definition device_update (f : ifa) (up : bool) : outcome ifa :=
    discipline of the two routines, which is a parameter of the model:
      sender_locks   - the hello sender takes nifa.mu between receiving a tick and sending the hello
      receiver_locks - the receiver takes nifa.mu while processing a frame
-   On HEAD both are false (p2pHello and processPkt read devStatus without the lock). A routine that
+     stop_unsubscribes - _stop unregisters the interface from the device server (HEAD: the
+                      subscription made in newNetIfa lasts until RemoveInterface)
+   On HEAD all are false (p2pHello and processPkt read devStatus without the lock). A routine that
    waits for the lock DeviceUpdate holds cannot see the closed done channel, so _stop's wg.Wait and
    that routine wait for each other. *)
-Record discipline := mkDisc { sender_locks : bool; receiver_locks : bool }.
-Definition head_discipline : discipline := mkDisc false false.
+Record discipline := mkDisc { sender_locks : bool; receiver_locks : bool; stop_unsubscribes : bool }.
+Definition head_discipline : discipline := mkDisc false false false.
 
 Inductive during := TickDuring | FrameDuring.
 
@@ -139,22 +142,34 @@ Definition device_update_during (d : discipline) (f : ifa) (up : bool) (w : duri
     (* no _stop: a routine that waited for the lock proceeds when DeviceUpdate returns *)
     bind (device_update f up) (fun f' => Ok (f', n))).
 
+(* the device server (protocols/device.Server.notify) calls DeviceUpdate of the CURRENT subscribers
+   only; d says whether _stop gives the subscription up *)
+Definition deliver (d : discipline) (f : ifa) (up : bool) : outcome ifa :=
+  if subscribed f then
+    bind (device_update f up) (fun f' =>
+      if stop_unsubscribes d && (dev_known f && oper_up f) && negb up
+      then Ok (mkIfa (passive f') (dev_known f') (oper_up f') (initialized f') (done_closed f') (eth f')
+                     (handles f') (ticker_live f') (sender f') (receiver f') false)
+      else Ok f')
+  else Ok f.
+
 (* ---- the server: its interfaces and the periodic routines that look at them ---- *)
 Definition srv := list ifa.
 
 Definition init (kinds : list bool) : srv := map new_ifa kinds.
 
-Fixpoint update_nth (i : nat) (s : srv) (up : bool) : outcome srv :=
+Fixpoint update_nth (d : discipline) (i : nat) (s : srv) (up : bool) : outcome srv :=
   match s, i with
   | [], _ => Ok []                                    (* no such interface: nobody subscribed *)
-  | f :: r, O => bind (device_update f up) (fun f' => Ok (f' :: r))
-  | f :: r, S j => bind (update_nth j r up) (fun r' => Ok (f :: r'))
+  | f :: r, O => bind (deliver d f up) (fun f' => Ok (f' :: r))
+  | f :: r, S j => bind (update_nth d j r up) (fun r' => Ok (f :: r'))
   end.
 
 Fixpoint update_nth_during (d : discipline) (i : nat) (s : srv) (up : bool) (w : during) : outcome (srv * nat) :=
   match s, i with
   | [], _ => Ok ([], 0%nat)
-  | f :: r, O => bind (device_update_during d f up w) (fun p => Ok (fst p :: r, snd p))
+  | f :: r, O => if subscribed f then bind (device_update_during d f up w) (fun p => Ok (fst p :: r, snd p))
+                 else Ok (f :: r, 0%nat)
   | f :: r, S j => bind (update_nth_during d j r up w) (fun p => Ok (f :: fst p, snd p))
   end.
 
@@ -197,7 +212,7 @@ Inductive event :=
    update ran, and the hello counts of the following interval *)
 Definition step (d : discipline) (s : srv) (e : event) : outcome (srv * (nat * list nat)) :=
   match e with
-  | Dev i up => bind (update_nth i s up) (fun s' => bind (life s') (fun hs => Ok (s', (0%nat, hs))))
+  | Dev i up => bind (update_nth d i s up) (fun s' => bind (life s') (fun hs => Ok (s', (0%nat, hs))))
   | DevDuring i up w =>
     bind (update_nth_during d i s up w) (fun p => bind (life (fst p)) (fun hs => Ok (fst p, (snd p, hs))))
   end.
